@@ -88,6 +88,8 @@ def _gen_case(rng, tier):
     order = ['forms', 'files', 'POST']
     rng.shuffle(order)
     case['touch'] = order[:rng.choice([1, 2, 3, 3])]
+    if rng.random() < 0.2:
+        case['touch'] = case['touch'] + ['files_seek']
     if 'files' in case['touch'] and rng.random() < 0.35:
         # read the uploads piecewise in round-robin order instead of one after the other
         case['touch'] = [('files_rr:%d' % rng.choice([1, 3, 16, 64])) if t == 'files' else t for t in case['touch']]
@@ -221,6 +223,8 @@ def _run_case(case):
         violation(res, cls, f'well-formed form post answered {o.resp.status!r}: {type(exc).__name__ if exc else None}: {exc}')
     else:
         seen = o.seen
+        if seen.get('seek_problem'):
+            violation(res, 'C07:upload-seek-inconsistent', seen['seek_problem'])
         for what, exp in (('forms', forms_e), ('files', files_e), ('POST', post_e)):
             if what in seen:
                 d = _cmp(_norm_seen(seen[what]), exp, what)
